@@ -21,6 +21,8 @@ func init() {
 		},
 		Run: runC31,
 		Controls: []Control{
+			{Name: "deadline-only-moves-forward", File: "protocols/isis/server/neighbor.go", Old: "\tn.timeout = to\n}", New: "\tif !to.After(n.timeout) {\n\t\treturn\n\t}\n\tn.timeout = to\n}", Expect: "deadline-follows-the-last-hello"},
+			{Name: "checker-ticker-handed-in-from-the-manager", File: "protocols/isis/server/neighbor.go", Old: "\tn.adjCheckTicker = clock.Ticker(time.Second)\n\tdefer n.adjCheckTicker.Stop()\n", New: "\tdefer n.adjCheckTicker.Stop()\n\tif n.adjCheckTicker == nil {\n\t\tn.adjCheckTicker = clock.Ticker(time.Second)\n\t}\n", Expect: "checker-stops-its-own-ticker"},
 			{Name: "down-only-tears-down-up-adjacencies", File: "protocols/isis/server/neighbor.go", Old: "func (n *neighbor) down() {\n", New: "func (n *neighbor) down() {\n\tif n.getState() != packet.P2PAdjStateUp {\n\t\treturn\n\t}\n", Expect: "timeout-covers-every-live-state"},
 			{Name: "refactor-down-skips-when-already-down", Silent: true, File: "protocols/isis/server/neighbor.go", Old: "func (n *neighbor) down() {\n", New: "func (n *neighbor) down() {\n\tif n.getState() == packet.P2PAdjStateDown {\n\t\treturn\n\t}\n"},
 			{Name: "timeout-retaken-every-tick", File: "protocols/isis/server/neighbor.go", Old: "\t\t\tif state != packet.P2PAdjStateDown {\n\t\t\t\tif n.timedOut() {\n\t\t\t\t\tn.down()\n\t\t\t\t\tstate, change = n.getStateAndTime()\n\t\t\t\t}\n\t\t\t}\n", New: "\t\t\tif n.timedOut() {\n\t\t\t\tn.down()\n\t\t\t\tstate, change = n.getStateAndTime()\n\t\t\t}\n", Expect: "timeout-covers-every-live-state"},
@@ -37,6 +39,7 @@ func init() {
 
 func runC31(c *core.Ctx) {
 	helloDrivesState(c)
+	holdDeadlineAndTicker(c)
 	p := c.P
 	proc := c.MustFunc(isisSrv + ".(*neighbor).processP2PHello")
 	contains := c.MustFunc(isisSrv + ".(*neighbor).p2pAdjTLVContainsSelf")
@@ -359,4 +362,75 @@ func setsSomewhere(f *core.Fn, pred func(ast.Node) bool) bool {
 		return true
 	})
 	return found
+}
+
+// holdDeadlineAndTicker:
+//   (a) every hello sets the holding deadline to what THAT hello announces: neighbor.updateTimeout stores its argument
+//       on every path (a "never move the deadline backwards" guard keeps an adjacency Up for the longest holding time
+//       ever announced after the neighbor went silent);
+//   (b) the ticker that paces a neighbor's timeout checks is stopped by the goroutine that created it: a deferred
+//       Stop() on a ticker field needs an assignment of that field from a constructor call earlier in the same function —
+//       a ticker handed in from outside (shared per interface) is stopped for everybody by the first neighbor disposed,
+//       after which no silent neighbor on that interface is ever taken Down.
+func holdDeadlineAndTicker(c *core.Ctx) {
+	p := c.P
+	const ruleA, ruleB = "deadline-follows-the-last-hello", "checker-stops-its-own-ticker"
+	if f := c.MustFunc(isisSrv + ".(*neighbor).updateTimeout"); f != nil {
+		c.Analysed(f)
+		to := p.Field(isisSrv, "neighbor", "timeout")
+		par := core.ParamObj(f, 0)
+		sets := func(n ast.Node) bool {
+			as, ok := n.(*ast.AssignStmt)
+			if !ok || len(as.Lhs) != 1 || len(as.Rhs) != 1 {
+				return false
+			}
+			return core.FieldOf(f.Pkg, as.Lhs[0]) == to && to != nil && core.ObjOf(f.Pkg, as.Rhs[0]) == par && par != nil
+		}
+		rets, implicit := core.ExitsWithout(p.CFG(f), sets)
+		pos := f.Decl.Pos()
+		if len(rets) > 0 {
+			pos = rets[0].Pos()
+		}
+		// falling off the end after the assignment is fine: implicit counts only if the assignment is missing on that path
+		c.Check(len(rets) == 0 && !implicit, ruleA, f.Name()+" stores the new deadline on every path", pos,
+			"updateTimeout can return without storing the deadline computed from the hello just received: a neighbor that lowers its holding time and then goes silent stays Up until the older, longer deadline")
+	}
+	if f := c.MustFunc(isisSrv + ".(*neighbor).adjChecker"); f != nil {
+		c.Analysed(f)
+		n := 0
+		ast.Inspect(f.Decl.Body, func(nd ast.Node) bool {
+			d, ok := nd.(*ast.DeferStmt)
+			if !ok {
+				return true
+			}
+			se, ok := d.Call.Fun.(*ast.SelectorExpr)
+			if !ok || se.Sel.Name != "Stop" {
+				return true
+			}
+			fv := core.FieldOf(f.Pkg, se.X)
+			if fv == nil {
+				return true
+			}
+			n++
+			own := false
+			ast.Inspect(f.Decl.Body, func(m ast.Node) bool {
+				as, isAs := m.(*ast.AssignStmt)
+				if !isAs || as.Pos() > d.Pos() || len(as.Lhs) != len(as.Rhs) {
+					return true
+				}
+				for i, l := range as.Lhs {
+					if core.FieldOf(f.Pkg, l) == fv {
+						if _, isCall := core.Unparen(as.Rhs[i]).(*ast.CallExpr); isCall {
+							own = true
+						}
+					}
+				}
+				return true
+			})
+			c.Check(own, ruleB, fmt.Sprintf("%s stops %s, which it created", f.Name(), fv.Name()), d.Pos(),
+				"the checker goroutine stops a ticker it did not create in this run (the field is not assigned from a constructor call before the deferred Stop): a ticker shared between neighbors is stopped for all of them when the first one is disposed, and the hold timers of the others are never evaluated again")
+			return true
+		})
+		c.Check(n >= 1, ruleB, "deferred ticker stop found", f.Decl.Pos(), "adjChecker has no deferred Stop() of a ticker field")
+	}
 }
